@@ -325,7 +325,14 @@ func (e *env) do(client, idx int, op Op) {
 	case OpUpdatePriority:
 		e.p.UpdateBarPriority(b, int(op.N), op.Flag)
 	case OpWrite:
-		n, err := e.p.Write([]byte(op.S))
+		// an io.Writer must not retain the slice: the caller reuses its buffer right after the call
+		buf := []byte(op.S)
+		n, err := e.p.Write(buf)
+		for i := range buf {
+			if buf[i] != '\n' {
+				buf[i] = '#'
+			}
+		}
 		r = int64(n)
 		if err != nil {
 			rs = err.Error()
